@@ -49,6 +49,17 @@ impl Step {
     fn destructive(&self) -> bool {
         !matches!(self, Step::MidxWrite | Step::NewCommits { .. })
     }
+    /// upper bound of the number of index files (pack indices, multi-pack indices) the step creates
+    fn index_creations(&self) -> usize {
+        match self {
+            Step::RepackIncremental { midx } | Step::Geometric { midx } | Step::RepackAll { midx, .. } => 1 + *midx as usize,
+            Step::PrunePacked => 0,
+            Step::MidxWrite => 1,
+            Step::MidxRepackExpire => 2,
+            Step::Gc => 2,
+            Step::NewCommits { as_pack, .. } => *as_pack as usize,
+        }
+    }
     fn name(&self) -> String {
         match self {
             Step::RepackIncremental { midx } => format!("repack -d{}", if *midx { " --write-midx" } else { "" }),
@@ -166,7 +177,7 @@ fn gen_world(t: &mut Tape) -> WorldSpec {
         pre_a: pre(t),
         pre_b: pre(t),
         steps,
-        slots: [6u16, 8, 12, 32][t.weighted(&[3, 3, 2, 2])],
+        slots: [6u16, 8, 12, 32][t.weighted(&[2, 2, 3, 3])],
         use_midx: !t.chance(64),
         readers,
     }
@@ -275,7 +286,11 @@ fn run_step(git: &Git, step: &Step) -> Result<(), String> {
             run(&a)
         }
         Step::PrunePacked => run(&["prune-packed", "-q"]),
-        Step::MidxWrite => run(&["multi-pack-index", "write"]),
+        Step::MidxWrite => {
+            // fails harmlessly when there is no pack at all
+            let _ = git.try_run(["multi-pack-index", "write"], None)?;
+            Ok(())
+        }
         Step::MidxRepackExpire => {
             // both need an existing multi-pack index; without one they fail harmlessly
             let _ = git.try_run(["multi-pack-index", "repack", "--batch-size=0"], None)?;
@@ -447,6 +462,12 @@ fn err_chain(err: &(dyn std::error::Error + 'static)) -> String {
     s
 }
 
+fn push_bounded(v: &mut Vec<String>, s: String) {
+    if v.len() < 50 {
+        v.push(s);
+    }
+}
+
 fn perturb(spec: &ReaderSpec, rng: &mut Rng) {
     let mode = if spec.perturb == 4 { rng.below(4) as u8 } else { spec.perturb };
     match mode {
@@ -570,7 +591,7 @@ fn one_op(
                                 out.insufficient_slots += 1;
                             } else if class == ErrClass::NotFoundIo && attempt == 1 {
                                 // a file the mutator has just deleted: re-query once, counts only if that fails too
-                                out.transient_errors.push(format!("try_find({}): {text}", o.hex));
+                                push_bounded(&mut out.transient_errors, format!("try_find({}): {text}", o.hex));
                                 continue;
                             } else if auto_refresh || class == ErrClass::Other {
                                 out.violations.push((
@@ -596,7 +617,7 @@ fn one_op(
                     if class == ErrClass::InsufficientSlots {
                         out.insufficient_slots += 1;
                     } else if class == ErrClass::NotFoundIo {
-                        out.transient_errors.push(format!("try_find(absent {id}): {}", err_chain(e.as_ref())));
+                        push_bounded(&mut out.transient_errors, format!("try_find(absent {id}): {}", err_chain(e.as_ref())));
                     } else {
                         out.violations.push(("error:try_find:other".into(), format!("try_find(absent {id}) failed: {}", err_chain(e.as_ref()))));
                     }
@@ -635,7 +656,7 @@ fn one_op(
                             if class == ErrClass::InsufficientSlots {
                                 out.insufficient_slots += 1;
                             } else if class == ErrClass::NotFoundIo && attempt == 1 {
-                                out.transient_errors.push(format!("try_header({}): {text}", o.hex));
+                                push_bounded(&mut out.transient_errors, format!("try_header({}): {text}", o.hex));
                                 continue;
                             } else if auto_refresh || class == ErrClass::Other {
                                 out.violations.push((
@@ -662,10 +683,22 @@ fn one_op(
                 if h.exists(&o.id) {
                     out.found += 1;
                 } else if auto_refresh {
-                    out.violations.push((
-                        format!("miss:contains:{}", where_was(o)),
-                        format!("contains({}) [{mode}] = false, but the object exists since before the lookup started", o.hex),
-                    ));
+                    // `contains` cannot report errors: ask the fallible header lookup whether the store ran out of slots
+                    match FindHeader::try_header(h, &o.id) {
+                        Err(e) if classify(e.as_ref()) == ErrClass::InsufficientSlots => out.insufficient_slots += 1,
+                        probe => out.violations.push((
+                            format!("miss:contains:{}", where_was(o)),
+                            format!(
+                                "contains({}) [{mode}] = false, but the object exists since before the lookup started (try_header right afterwards: {})",
+                                o.hex,
+                                match probe {
+                                    Ok(Some(_)) => "found".to_string(),
+                                    Ok(None) => "not found".to_string(),
+                                    Err(e) => err_chain(e.as_ref()),
+                                }
+                            ),
+                        )),
+                    }
                 } else {
                     out.legal_misses += 1;
                 }
@@ -686,7 +719,9 @@ fn one_op(
             let Ok(prefix) = gix_hash::Prefix::new(&id, hex_len) else { return };
             match h.lookup_prefix(prefix, None) {
                 Ok(res) => {
-                    out.prefix_results.push((id.to_hex_with_len(hex_len).to_string(), id, res, known && auto_refresh));
+                    if out.prefix_results.len() < 20_000 {
+                        out.prefix_results.push((id.to_hex_with_len(hex_len).to_string(), id, res, known && auto_refresh));
+                    }
                     if res.is_some() {
                         out.found += 1;
                     }
@@ -696,7 +731,7 @@ fn one_op(
                     if class == ErrClass::InsufficientSlots {
                         out.insufficient_slots += 1;
                     } else if class == ErrClass::NotFoundIo {
-                        out.transient_errors.push(format!("lookup_prefix({}): {}", id.to_hex_with_len(hex_len), err_chain(&e)));
+                        push_bounded(&mut out.transient_errors, format!("lookup_prefix({}): {}", id.to_hex_with_len(hex_len), err_chain(&e)));
                     } else {
                         out.violations.push(("error:lookup_prefix:other".into(), format!("lookup_prefix({}) failed: {}", id.to_hex_with_len(hex_len), err_chain(&e))));
                     }
@@ -881,135 +916,657 @@ fn render(w: &WorldSpec) -> String {
     s
 }
 
+// ------------------------------------------------------------------------------------------------------------
+// shared between the concurrent and the sequential sub-check
+
+struct Built {
+    _world: World,
+    git: Git,
+    shared: Shared,
+    first: OdbHandle,
+    handles: Vec<OdbHandle>,
+    wrap_possible: bool,
+    refreshes_before: usize,
+}
+
+fn unpack_cfg(as_pack: bool) -> &'static str {
+    if as_pack {
+        "fastimport.unpackLimit=1"
+    } else {
+        "fastimport.unpackLimit=100000"
+    }
+}
+
+macro_rules! infra_opt {
+    ($c:expr, $e:expr, $what:expr) => {
+        match $e {
+            Ok(v) => v,
+            Err(err) => {
+                $c.infra(format!("{}: {}", $what, err));
+                return None;
+            }
+        }
+    };
+}
+
+fn world_labels(c: &mut Case, w: &WorldSpec, steps: &[&Step]) {
+    c.label(match w.slots {
+        6 => "slots-6",
+        8 => "slots-8",
+        12 => "slots-12",
+        _ => "slots-32",
+    });
+    c.label_if(w.readers.iter().any(|r| r.stable_pack_ids), "reader-stable-pack-ids");
+    c.label_if(w.readers.iter().any(|r| !r.auto_refresh), "reader-refresh-never");
+    c.label_if(w.readers.iter().any(|r| r.pack_cache != 0), "reader-pack-cache");
+    c.label_if(w.readers.iter().any(|r| r.object_cache), "reader-object-cache");
+    c.label_if(w.readers.len() >= 4, "readers>=4");
+    c.label_if(!w.use_midx, "multi-pack-index-ignored");
+    for s in steps {
+        c.label(match s {
+            Step::RepackIncremental { .. } => "step-repack-d",
+            Step::RepackAll { .. } => "step-repack-a-d",
+            Step::Geometric { .. } => "step-geometric",
+            Step::PrunePacked => "step-prune-packed",
+            Step::MidxWrite => "step-midx-write",
+            Step::MidxRepackExpire => "step-midx-repack-expire",
+            Step::Gc => "step-gc",
+            Step::NewCommits { as_pack: true, .. } => "step-new-pack",
+            Step::NewCommits { as_pack: false, .. } => "step-new-loose",
+        });
+        if let Step::RepackIncremental { midx: true } | Step::RepackAll { midx: true, .. } | Step::Geometric { midx: true } = s {
+            c.label("step-write-midx");
+        }
+    }
+}
+
+/// repository, truth table, the store and one handle per reader spec
+fn build_world(c: &mut Case, w: &WorldSpec, steps: &[&Step], tag: &str) -> Option<Built> {
+    let world = infra_opt!(c, World::new(tag, true), "world");
+    let git = world.git.clone().cfg("pack.threads=1").cfg("gc.writeCommitGraph=false");
+    let objects_dir: PathBuf = world.git_dir().join("objects");
+    let stream = commits_stream("main", 0, w.commits_a as usize, w.files as usize, None, true);
+    infra_opt!(c, git.clone().cfg(unpack_cfg(w.a_as_pack)).run_in(["fast-import", "--quiet"], Some(&stream)), "fast-import A");
+    for s in &w.pre_a {
+        infra_opt!(c, run_step(&git, s), "pre-step");
+    }
+    let stream = commits_stream("main", w.commits_a as usize, w.commits_b as usize, w.files as usize, Some("refs/heads/main^0"), false);
+    infra_opt!(c, git.clone().cfg(unpack_cfg(w.b_as_pack)).run_in(["fast-import", "--quiet"], Some(&stream)), "fast-import B");
+    for s in &w.pre_b {
+        infra_opt!(c, run_step(&git, s), "pre-step");
+    }
+    let table = infra_opt!(c, batch_check(&git, None), "batch-check all objects");
+    let reachable = infra_opt!(c, git.run(["rev-list", "--objects", "--all", "--no-object-names"]), "rev-list");
+    let reachable: BTreeSet<String> = String::from_utf8_lossy(&reachable).lines().map(|l| l.trim().to_string()).collect();
+    let loose_at_start = loose_ids(&objects_dir);
+    let mut always: Vec<Obj> = Vec::new();
+    for (id, hex, kind, size) in table {
+        if !reachable.contains(&hex) && kind != gix_object::Kind::Tag {
+            c.infra(format!("object {hex} is not reachable; the world generator is wrong"));
+            return None;
+        }
+        let was_loose = loose_at_start.contains(&hex);
+        always.push(Obj { id, hex, kind, size, was_loose });
+    }
+    always.sort_by(|a, b| a.id.cmp(&b.id));
+    if always.len() < 50 {
+        c.infra(format!("only {} objects", always.len()));
+        return None;
+    }
+    let by_id: HashMap<ObjectId, usize> = always.iter().enumerate().map(|(i, o)| (o.id, i)).collect();
+    let shared = Shared {
+        always,
+        by_id: RwLock::new(by_id),
+        published: RwLock::new(Vec::new()),
+        done: AtomicBool::new(false),
+        total_ops: AtomicU64::new(0),
+        phase: AtomicUsize::new(0),
+    };
+    let first = match gix_odb::at_opts(
+        objects_dir.clone(),
+        Vec::new(),
+        Options {
+            slots: Slots::Given(w.slots),
+            object_hash: gix_hash::Kind::Sha1,
+            use_multi_pack_index: w.use_midx,
+            current_dir: Some(world.scratch.path.clone()),
+        },
+    ) {
+        Ok(h) => h,
+        Err(e) => {
+            c.fail_sig("store-open", format!("gix_odb::at_opts failed: {e}"));
+            return None;
+        }
+    };
+    let mut handles: Vec<OdbHandle> = Vec::new();
+    for r in &w.readers {
+        handles.push(new_handle(&first, r));
+    }
+    let refreshes_before = first.store_ref().metrics().num_refreshes;
+    // Slots are handed out round-robin: once (index files at start + index files created during the run) exceeds the
+    // slot count, the store has to reuse slots or report InsufficientSlots. Failures in such worlds carry a
+    // `slot-wrap:` prefix in their signature so that they form their own, narrower class.
+    let initial_indices = std::fs::read_dir(objects_dir.join("pack"))
+        .map(|rd| {
+            rd.flatten()
+                .filter(|e| {
+                    let n = e.file_name().to_string_lossy().to_string();
+                    n.ends_with(".idx") || n == "multi-pack-index"
+                })
+                .count()
+        })
+        .unwrap_or(0);
+    let creations: usize = steps.iter().map(|s| s.index_creations()).sum();
+    let wrap_possible = initial_indices + creations > w.slots as usize;
+    c.label_if(wrap_possible, "slot-wrap-possible");
+    Some(Built {
+        _world: world,
+        git,
+        shared,
+        first,
+        handles,
+        wrap_possible,
+        refreshes_before,
+    })
+}
+
+fn new_handle(first: &OdbHandle, r: &ReaderSpec) -> OdbHandle {
+    let mut h = first.clone();
+    match r.pack_cache {
+        1 => h.set_pack_cache(|| Box::new(gix_pack::cache::lru::StaticLinkedList::<64>::new(64 * 1024))),
+        2 => h.set_pack_cache(|| Box::new(gix_pack::cache::lru::MemoryCappedHashmap::new(256 * 1024))),
+        _ => {}
+    }
+    if r.object_cache {
+        h.set_object_cache(|| Box::new(gix_pack::cache::object::MemoryCappedHashmap::new(128 * 1024)));
+    }
+    h
+}
+
+/// run one step of the history; new objects are published to the readers once git is done creating them
+fn apply_step(git: &Git, step: &Step, si: usize, next_commit: &mut usize, files: usize, shared: &Shared) -> Result<(), String> {
+    if let Step::NewCommits { count, as_pack } = step {
+        let branch = format!("n{si}");
+        let old_tips = git.run(["for-each-ref", "--format=%(objectname)"])?;
+        let stream = commits_stream(&branch, *next_commit, *count as usize, files, Some("refs/heads/main^0"), false);
+        *next_commit += *count as usize;
+        git.clone().cfg(unpack_cfg(*as_pack)).run_in(["fast-import", "--quiet"], Some(&stream))?;
+        let mut args: Vec<String> = vec!["rev-list".into(), "--objects".into(), "--no-object-names".into(), format!("refs/heads/{branch}")];
+        for tip in String::from_utf8_lossy(&old_tips).lines() {
+            args.push(format!("^{tip}"));
+        }
+        let new_ids = git.run(&args)?;
+        let new_ids: Vec<String> = String::from_utf8_lossy(&new_ids).lines().map(|l| l.trim().to_string()).filter(|l| !l.is_empty()).collect();
+        let table = batch_check(git, Some(&new_ids))?;
+        let mut by_id = shared.by_id.write().unwrap();
+        let mut published = shared.published.write().unwrap();
+        for (id, hex, kind, size) in table {
+            if by_id.contains_key(&id) {
+                continue;
+            }
+            by_id.insert(id, shared.always.len() + published.len());
+            published.push(Obj {
+                id,
+                hex,
+                kind,
+                size,
+                was_loose: !*as_pack,
+            });
+        }
+        Ok(())
+    } else {
+        run_step(git, step)
+    }
+}
+
+/// Verdicts common to both sub-checks. Returns false when the case has been decided (failure or infra).
+fn judge(c: &mut Case, b: &Built, outs: &[ReaderOut], described: &str) -> bool {
+    let sig_of = |sig: &str| -> String {
+        if b.wrap_possible {
+            format!("slot-wrap:{sig}")
+        } else {
+            sig.to_string()
+        }
+    };
+    for o in outs {
+        if let Some((loc, msg)) = &o.panic {
+            if loc.starts_with("src/") || loc.contains("/verif/") {
+                c.infra(format!("harness panic in reader at {loc}: {msg}"));
+            } else {
+                c.fail_sig(&sig_of(&format!("panic:{loc}")), format!("lookup panicked at {loc}: {msg}; world: {described}"));
+            }
+            return false;
+        }
+    }
+    for o in outs {
+        if let Some((sig, msg)) = o.violations.first() {
+            c.fail_sig(&sig_of(sig), format!("{msg}; world: {described}"));
+            return false;
+        }
+    }
+    // post-hoc: prefix results and iterated ids against the final set of objects
+    let final_table = match batch_check(&b.git, None) {
+        Ok(t) => t,
+        Err(e) => {
+            c.infra(format!("final batch-check: {e}"));
+            return false;
+        }
+    };
+    let universe: BTreeSet<ObjectId> = final_table.iter().map(|e| e.0).collect();
+    let universe_hex: Vec<&String> = final_table.iter().map(|e| &e.1).collect();
+    for o in b.shared.always.iter().chain(b.shared.published.read().unwrap().iter()) {
+        if !universe.contains(&o.id) {
+            c.infra(format!("git lost object {} during maintenance; the oracle's premise is void", o.hex));
+            return false;
+        }
+    }
+    for o in outs {
+        for (prefix, id, res, must_find) in &o.prefix_results {
+            let matching = universe_hex.iter().filter(|h| h.starts_with(prefix.as_str())).count();
+            match res {
+                Some(Ok(found)) => {
+                    if !(found.to_string().starts_with(prefix.as_str()) && universe.contains(found)) {
+                        c.fail_sig("prefix-wrong-id", format!("lookup_prefix({prefix}) = {found}, which does not have that prefix or is not an object of the repository"));
+                        return false;
+                    }
+                    if *must_find && matching == 1 && found != id {
+                        c.fail_sig("prefix-wrong-id", format!("lookup_prefix({prefix}) = {found} but the only object with that prefix is {id}"));
+                        return false;
+                    }
+                }
+                Some(Err(())) => {
+                    if matching < 2 {
+                        c.fail_sig("prefix-false-ambiguity", format!("lookup_prefix({prefix}) reports ambiguity but {matching} object(s) of the repository have that prefix"));
+                        return false;
+                    }
+                }
+                None => {
+                    if *must_find {
+                        c.fail_sig(
+                            &sig_of("miss:lookup_prefix"),
+                            format!("lookup_prefix({prefix}) [auto-refresh] = None, but {id} exists since before the lookup started; world: {described}"),
+                        );
+                        return false;
+                    }
+                }
+            }
+        }
+        for id in &o.iter_ids {
+            if !universe.contains(id) {
+                c.fail_sig("iter-phantom", format!("iter() yielded {id}, which was never an object of the repository"));
+                return false;
+            }
+        }
+    }
+    // quiescent end state: a fresh handle finds everything, with the right content
+    let fresh = b.first.clone();
+    let mut buf = Vec::new();
+    for o in b.shared.always.iter().chain(b.shared.published.read().unwrap().iter()) {
+        match PackFind::try_find(&fresh, &o.id, &mut buf) {
+            Ok(Some((d, _))) => {
+                let got = object_sha1(kind_name(d.kind), d.data);
+                if got != o.hex {
+                    c.fail_sig(&sig_of("wrong-content"), format!("after the run: try_find({}) returns content hashing to {got}", o.hex));
+                    return false;
+                }
+            }
+            Ok(None) => {
+                c.fail_sig(&sig_of("miss:quiescent"), format!("after the run (no concurrent change): try_find({}) = None; world: {described}", o.hex));
+                return false;
+            }
+            Err(e) => {
+                if classify(e.as_ref()) == ErrClass::InsufficientSlots {
+                    continue;
+                }
+                c.fail_sig("error:quiescent", format!("after the run: try_find({}) failed: {}", o.hex, err_chain(e.as_ref())));
+                return false;
+            }
+        }
+    }
+    true
+}
+
+fn outcome_labels(c: &mut Case, b: &Built, outs: &[ReaderOut]) -> (usize, u64, bool) {
+    let refreshes = b.first.store_ref().metrics().num_refreshes.saturating_sub(b.refreshes_before);
+    let ops: u64 = outs.iter().map(|o| o.ops).sum();
+    let during: u64 = outs.iter().map(|o| o.ops_during_destructive).sum();
+    let moved = outs.iter().any(|o| {
+        o.distinct_pack_ids
+            .iter()
+            .any(|(idx, ids)| ids.len() >= 2 || (*idx < b.shared.always.len() && b.shared.always[*idx].was_loose && !ids.is_empty()))
+    });
+    c.label_if(outs.iter().any(|o| !o.transient_errors.is_empty()), "transient-not-found-error-retried");
+    c.label_if(outs.iter().any(|o| o.insufficient_slots > 0), "insufficient-slots-error");
+    c.label_if(outs.iter().any(|o| o.legal_misses > 0), "legal-miss-refresh-never");
+    c.label_if(outs.iter().any(|o| o.locations_verified > 0), "stable-location-verified");
+    c.label_if(moved, "object-served-from-changing-packs");
+    c.label_if(during > 0, "lookups-inside-destructive-step");
+    c.label_if(refreshes >= 2, "refreshes>=2");
+    c.label_if(refreshes >= 20, "refreshes>=20");
+    c.label(match ops {
+        0..=999 => "ops<1k",
+        1000..=9999 => "ops-1k..10k",
+        10_000..=99_999 => "ops-10k..100k",
+        _ => "ops>=100k",
+    });
+    (refreshes, during, moved)
+}
+
+// ------------------------------------------------------------------------------------------------------------
+// the sequential sub-check: no threads, a generated interleaving of handle operations and maintenance steps
+
+#[derive(Debug, Clone, Hash)]
+enum Act {
+    Git(Step),
+    /// `count` operations on one handle: kind 0 = by the handle's mix, 1 = contains only (touches indices, not
+    /// packs), 2 = try_find of known objects, 3 = lookups of absent ids (each forces a refresh), 4 = try_header,
+    /// 5 = location_by_oid (handles with stable pack ids), 6 = entry_by_location of remembered locations
+    Ops { handle: u8, kind: u8, count: u8, seed: u16 },
+    /// drop the handle and create a new one with the same configuration
+    Recreate { handle: u8 },
+}
+
+fn gen_sequential(t: &mut Tape) -> (WorldSpec, Vec<Act>) {
+    let nhandles = t.range(2, 4);
+    let mut readers = Vec::new();
+    for _ in 0..nhandles {
+        let mut mix = [0u8; 9];
+        let base = [8u8, 5, 5, 3, 1, 2, 4, 4, 1];
+        for (m, b) in mix.iter_mut().zip(base) {
+            *m = b + (t.u8() >> 6);
+        }
+        readers.push(ReaderSpec {
+            auto_refresh: !t.chance(64),
+            stable_pack_ids: t.chance(80),
+            pack_cache: t.weighted(&[3, 3, 2]) as u8,
+            object_cache: t.chance(40),
+            seed: 1,
+            mix,
+            perturb: 0,
+            absent: 32,
+        });
+    }
+    // each handle has a habit: 0 mixed, 1 index-only (contains), 2 finder, 3 refresher (absent ids), 4 locator
+    let habits: Vec<u8> = (0..nhandles).map(|_| t.weighted(&[2, 3, 3, 3, 2]) as u8).collect();
+    let mut script = Vec::new();
+    // prologue: some handles learn about all indices without loading any pack
+    for h in 0..nhandles {
+        if t.chance(112) {
+            script.push(Act::Ops {
+                handle: h as u8,
+                kind: 1,
+                count: 80,
+                seed: t.u16(),
+            });
+        }
+    }
+    // rounds: one maintenance step, then a few bursts by generated handles
+    let rounds = t.range(2, 8);
+    for _ in 0..rounds {
+        script.push(Act::Git(gen_step(t)));
+        let bursts = t.range(1, 5);
+        for _ in 0..bursts {
+            if t.chance(20) {
+                script.push(Act::Recreate { handle: t.below(nhandles) as u8 });
+                continue;
+            }
+            let handle = t.below(nhandles);
+            let kind = if t.chance(176) {
+                match habits[handle] {
+                    4 => 5 + t.below(2) as u8,
+                    k => k,
+                }
+            } else {
+                t.weighted(&[3, 3, 3, 3, 1, 2, 2]) as u8
+            };
+            script.push(Act::Ops {
+                handle: handle as u8,
+                kind,
+                count: [1u8, 2, 5, 20][t.below(4)],
+                seed: t.u16(),
+            });
+        }
+    }
+    let pre = |t: &mut Tape| -> Vec<Step> {
+        let n = t.weighted(&[3, 3, 2]);
+        (0..n)
+            .map(|_| loop {
+                let s = gen_step(t);
+                if !matches!(s, Step::NewCommits { .. }) {
+                    break s;
+                }
+            })
+            .collect()
+    };
+    let w = WorldSpec {
+        commits_a: t.range(8, 20) as u8,
+        commits_b: t.range(4, 14) as u8,
+        files: t.range(3, 6) as u8,
+        a_as_pack: t.bool(),
+        b_as_pack: t.bool(),
+        pre_a: pre(t),
+        pre_b: pre(t),
+        steps: Vec::new(),
+        slots: [6u16, 8, 12, 32][t.weighted(&[2, 2, 3, 3])],
+        use_midx: !t.chance(64),
+        readers,
+    };
+    (w, script)
+}
+
+fn render_sequential(w: &WorldSpec, script: &[Act]) -> String {
+    let mut s = format!(
+        "{}+{} commits over {} files ({} / {}), pre-steps {:?} / {:?}; slots {}, midx {}; handles: ",
+        w.commits_a,
+        w.commits_b,
+        w.files,
+        if w.a_as_pack { "pack" } else { "loose" },
+        if w.b_as_pack { "pack" } else { "loose" },
+        w.pre_a.iter().map(Step::name).collect::<Vec<_>>(),
+        w.pre_b.iter().map(Step::name).collect::<Vec<_>>(),
+        w.slots,
+        w.use_midx
+    );
+    for (i, r) in w.readers.iter().enumerate() {
+        s.push_str(&format!(
+            "H{i}({}{}{}{}) ",
+            if r.auto_refresh { "auto" } else { "never" },
+            if r.stable_pack_ids { ",stable" } else { "" },
+            match r.pack_cache {
+                0 => "",
+                1 => ",lru",
+                _ => ",hashmap",
+            },
+            if r.object_cache { ",objcache" } else { "" }
+        ));
+    }
+    s.push_str("script: ");
+    for a in script {
+        match a {
+            Act::Git(st) => s.push_str(&format!("[git {}] ", st.name())),
+            Act::Ops { handle, kind, count, seed } => s.push_str(&format!(
+                "H{handle}:{}x{count}#{seed} ",
+                match kind {
+                    0 => "mix",
+                    1 => "contains",
+                    2 => "find",
+                    3 => "absent",
+                    4 => "header",
+                    5 => "location",
+                    _ => "location-verify",
+                }
+            )),
+            Act::Recreate { handle } => s.push_str(&format!("H{handle}:recreate ")),
+        }
+    }
+    s
+}
+
 pub fn main() {
     let mut ck = Check::new("C12", "exploration");
     install_thread_panic_recorder();
-    ck.rule("One case = (history x schedule): a bare repository with 100..400 reachable objects (two fast-import batches, each loose or packed, each followed by 0..2 maintenance steps), then 4..12 maintenance steps (repack -d / -a -d / -A -d / --geometric, each optionally --write-midx; prune-packed; multi-pack-index write / repack+expire; gc; 1..6 new commits as loose objects or as a pack) run by git WHILE 1..6 reader threads, each with its own handle on one shared Store (slots 6/8/12/32, multi-pack-index use on/off; per reader: auto-refresh or never, stable pack ids, no/LRU/hashmap pack cache, object cache, operation mix over try_find / try_header / contains / lookup_prefix / iter / handle clone+drop (with refresh_never or prevent_pack_unload toggles) / location_by_oid + entry_by_location / metrics, share of absent ids, perturbation none/yield/spin/sleep/mixed, all expanded from tape-provided seeds), perform lookups; each mutator step waits for a generated number of reader operations. NON-TRIVIAL: the store reconciled with the disk at least twice during the run, at least one step that deletes packs or loose objects completed while readers were performing lookups (>= 1 reader operation began and ended inside such a step), and >= 1 object was served from >= 2 different pack ids or from a pack after having been loose. Distinct by hash of the decoded world.");
+    ck.rule("repack: one case = (history x schedule): a bare repository with 100..400 reachable objects (two fast-import batches, each loose or packed, each followed by 0..2 maintenance steps), then 4..12 maintenance steps (repack -d / -a -d / -A -d / --geometric, each optionally --write-midx; prune-packed; multi-pack-index write / repack+expire; gc; 1..6 new commits as loose objects or as a pack) run by git WHILE 1..6 reader threads, each with its own handle on one shared Store (slots 6/8/12/32, multi-pack-index use on/off; per reader: auto-refresh or never, stable pack ids, no/LRU/hashmap pack cache, object cache, operation mix over try_find / try_header / contains / lookup_prefix / iter / handle clone+drop (with refresh_never or prevent_pack_unload toggles) / location_by_oid + entry_by_location / metrics, share of absent ids, perturbation none/yield/spin/sleep/mixed, all expanded from tape-provided seeds), perform lookups until the history is done; each mutator step waits for a generated number of reader operations. NON-TRIVIAL: the store reconciled with the disk at least twice during the run, at least one step that deletes packs or loose objects completed while readers were performing lookups (>= 1 reader operation began and ended inside such a step), and >= 1 object was served from >= 2 different pack ids or from a pack after having been loose. sequential: the same worlds (smaller) and handles without threads: a generated script: optional index-only warm-up per handle, then 2..8 rounds of one maintenance step followed by 1..5 bursts of operations on generated handles out of 2..4 (each handle has a habit: mixed / contains only / try_find / absent ids / location_by_oid + entry_by_location; bursts follow the habit or a generated kind incl. try_header) or a handle re-creation; deterministic and replayable. NON-TRIVIAL there: a deleting maintenance step lies between two bursts of operations of the same handle and another handle operated in between. Distinct by hash of the decoded case.");
     ck.assume(&format!("history is applied by {}; every object of the world is reachable from a ref, so no maintenance step may drop it (checked: after the run git still has every object)", Git::version()));
-    ck.assume("schedules are sampled (OS threads + generated perturbation), not enumerated; a violation that needs one specific rare interleaving can be missed; verdicts do not depend on wall-clock time");
-    ck.assume("an Err whose source is io::ErrorKind::NotFound (a file the mutator has just deleted) is re-queried once and counts only if the retry fails too; InsufficientSlots errors are not violations (the generated slot count may be too small for the history) and are reported as a label");
+    ck.assume("repack: schedules are sampled (OS threads + generated perturbation), not enumerated; a violation that needs one specific rare interleaving can be missed; verdicts do not depend on wall-clock time");
+    ck.assume("an Err whose source is io::ErrorKind::NotFound (a file the mutator has just deleted) is re-queried once and counts only if the retry fails too; InsufficientSlots errors are not violations (the generated slot count may be too small for the history) and are reported as a label; `contains()` = false is attributed to InsufficientSlots when try_header right afterwards reports that error");
     ck.assume("content is judged by SHA-1 computed by the harness (sha1_smol), not by gix-hash");
+
+    ck.sub("sequential", SubCfg::new(160, 5000).max_len(300).max_shrink(40), |t, c| {
+        let (w, script) = gen_sequential(t);
+        c.key(&(&w, &script));
+        c.sample_with(|| render_sequential(&w, &script));
+        let steps: Vec<&Step> = script.iter().filter_map(|a| if let Act::Git(s) = a { Some(s) } else { None }).collect();
+        world_labels(c, &w, &steps);
+        // non-trivial: ops(H) .. ops(other) .. destructive git .. ops(other)? .. ops(H), in script order
+        let mut nontrivial = false;
+        for (i, a) in script.iter().enumerate() {
+            if let Act::Git(s) = a {
+                if !s.destructive() {
+                    continue;
+                }
+                let before: BTreeSet<u8> = script[..i].iter().filter_map(|a| if let Act::Ops { handle, .. } = a { Some(*handle) } else { None }).collect();
+                let after: Vec<u8> = script[i + 1..].iter().filter_map(|a| if let Act::Ops { handle, .. } = a { Some(*handle) } else { None }).collect();
+                let after_set: BTreeSet<u8> = after.iter().copied().collect();
+                if before.iter().any(|h| after_set.contains(h)) && after_set.len() >= 2 {
+                    nontrivial = true;
+                }
+            }
+        }
+        c.nontrivial(nontrivial);
+        let Some(mut b) = build_world(c, &w, &steps, "c12s") else { return };
+        let described = render_sequential(&w, &script);
+        let mut handles: Vec<Option<OdbHandle>> = Vec::new();
+        for (h, r) in b.handles.drain(..).zip(w.readers.iter()) {
+            let mut h = h;
+            if r.stable_pack_ids {
+                h.prevent_pack_unload();
+            }
+            if !r.auto_refresh {
+                h.refresh_never();
+            }
+            handles.push(Some(h));
+        }
+        let mut outs: Vec<ReaderOut> = w.readers.iter().map(|_| ReaderOut::default()).collect();
+        let mut locations: Vec<Vec<StoredLocation>> = w.readers.iter().map(|_| Vec::new()).collect();
+        let mut buf = Vec::new();
+        let mut next_commit = w.commits_a as usize + w.commits_b as usize;
+        for (ai, a) in script.iter().enumerate() {
+            match a {
+                Act::Git(step) => {
+                    if let Err(e) = apply_step(&b.git, step, ai, &mut next_commit, w.files as usize, &b.shared) {
+                        c.infra(format!("step {ai} ({}): {e}", step.name()));
+                        return;
+                    }
+                }
+                Act::Recreate { handle } => {
+                    let k = *handle as usize;
+                    handles[k] = None;
+                    locations[k].clear();
+                    let r = &w.readers[k];
+                    let mut h = new_handle(&b.first, r);
+                    if r.stable_pack_ids {
+                        h.prevent_pack_unload();
+                    }
+                    if !r.auto_refresh {
+                        h.refresh_never();
+                    }
+                    handles[k] = Some(h);
+                }
+                Act::Ops { handle, kind, count, seed } => {
+                    let k = *handle as usize;
+                    let r = &w.readers[k];
+                    let mut spec = r.clone();
+                    let mut rng = Rng(*seed as u64 * 2 + 1);
+                    let total: u32 = r.mix.iter().map(|m| *m as u32).sum();
+                    for _ in 0..*count {
+                        let op = match kind {
+                            0 => {
+                                spec.absent = 32;
+                                let mut x = rng.below(total as usize) as u32;
+                                let mut op = 0;
+                                for (i, m) in r.mix.iter().enumerate() {
+                                    if x < *m as u32 {
+                                        op = i;
+                                        break;
+                                    }
+                                    x -= *m as u32;
+                                }
+                                op
+                            }
+                            1 => {
+                                spec.absent = 0;
+                                2
+                            }
+                            2 => {
+                                spec.absent = 0;
+                                0
+                            }
+                            3 => {
+                                spec.absent = 255;
+                                [0usize, 2, 1][rng.below(3)]
+                            }
+                            4 => {
+                                spec.absent = 0;
+                                1
+                            }
+                            5 => {
+                                spec.absent = 0;
+                                6
+                            }
+                            _ => 7,
+                        };
+                        let h = handles[k].as_ref().expect("handle present");
+                        let out = &mut outs[k];
+                        let res = std::panic::catch_unwind(std::panic::AssertUnwindSafe(|| {
+                            one_op(h, r.auto_refresh, r.stable_pack_ids, op, &b.shared, &mut rng, &spec, out, &mut buf, &mut locations[k]);
+                        }));
+                        outs[k].ops += 1;
+                        if res.is_err() {
+                            let tid = std::thread::current().id();
+                            let rec = THREAD_PANICS
+                                .lock()
+                                .ok()
+                                .and_then(|mut g| g.iter().rposition(|(t, _, _)| *t == tid).map(|p| g.remove(p)));
+                            outs[k].panic = Some(rec.map(|(_, l, m)| (l, m)).unwrap_or_else(|| ("unknown".into(), "panic".into())));
+                            break;
+                        }
+                    }
+                    if outs[k].panic.is_some() || !outs[k].violations.is_empty() {
+                        break;
+                    }
+                }
+            }
+        }
+        drop(handles);
+        if !judge(c, &b, &outs, &described) {
+            return;
+        }
+        let _ = outcome_labels(c, &b, &outs);
+    });
 
     let cfg = SubCfg::new(36, 900).max_len(400).threads(2).max_shrink(4);
     ck.sub("repack", cfg, |t, c| {
         let w = gen_world(t);
         c.key(&w);
         c.sample_with(|| render(&w));
-        c.label(match w.slots {
-            6 => "slots-6",
-            8 => "slots-8",
-            12 => "slots-12",
-            _ => "slots-32",
-        });
-        c.label_if(w.readers.iter().any(|r| r.stable_pack_ids), "reader-stable-pack-ids");
-        c.label_if(w.readers.iter().any(|r| !r.auto_refresh), "reader-refresh-never");
-        c.label_if(w.readers.iter().any(|r| r.pack_cache != 0), "reader-pack-cache");
-        c.label_if(w.readers.iter().any(|r| r.object_cache), "reader-object-cache");
-        c.label_if(w.readers.len() >= 4, "readers>=4");
-        c.label_if(!w.use_midx, "multi-pack-index-ignored");
-        for (s, _) in &w.steps {
-            c.label(match s {
-                Step::RepackIncremental { .. } => "step-repack-d",
-                Step::RepackAll { .. } => "step-repack-a-d",
-                Step::Geometric { .. } => "step-geometric",
-                Step::PrunePacked => "step-prune-packed",
-                Step::MidxWrite => "step-midx-write",
-                Step::MidxRepackExpire => "step-midx-repack-expire",
-                Step::Gc => "step-gc",
-                Step::NewCommits { as_pack: true, .. } => "step-new-pack",
-                Step::NewCommits { as_pack: false, .. } => "step-new-loose",
-            });
-            if let Step::RepackIncremental { midx: true } | Step::RepackAll { midx: true, .. } | Step::Geometric { midx: true } = s {
-                c.label("step-write-midx");
-            }
-        }
-
-        // ---- build the world
-        let world = infra!(c, World::new("c12", true), "world");
-        let git = world.git.clone().cfg("pack.threads=1").cfg("gc.writeCommitGraph=false");
-        let objects_dir: PathBuf = world.git_dir().join("objects");
-        let unpack = |as_pack: bool| if as_pack { "fastimport.unpackLimit=1" } else { "fastimport.unpackLimit=100000" };
-        let stream = commits_stream("main", 0, w.commits_a as usize, w.files as usize, None, true);
-        infra!(c, git.clone().cfg(unpack(w.a_as_pack)).run_in(["fast-import", "--quiet"], Some(&stream)), "fast-import A");
-        for s in &w.pre_a {
-            infra!(c, run_step(&git, s), "pre-step");
-        }
-        let stream = commits_stream("main", w.commits_a as usize, w.commits_b as usize, w.files as usize, Some("refs/heads/main^0"), false);
-        infra!(c, git.clone().cfg(unpack(w.b_as_pack)).run_in(["fast-import", "--quiet"], Some(&stream)), "fast-import B");
-        for s in &w.pre_b {
-            infra!(c, run_step(&git, s), "pre-step");
-        }
-        let table = infra!(c, batch_check(&git, None), "batch-check all objects");
-        let reachable = infra!(c, git.run(["rev-list", "--objects", "--all", "--no-object-names"]), "rev-list");
-        let reachable: BTreeSet<String> = String::from_utf8_lossy(&reachable).lines().map(|l| l.trim().to_string()).collect();
-        let loose_at_start = loose_ids(&objects_dir);
-        let mut always: Vec<Obj> = Vec::new();
-        for (id, hex, kind, size) in table {
-            if !reachable.contains(&hex) && kind != gix_object::Kind::Tag {
-                c.infra(format!("object {hex} is not reachable; the world generator is wrong"));
-                return;
-            }
-            let was_loose = loose_at_start.contains(&hex);
-            always.push(Obj { id, hex, kind, size, was_loose });
-        }
-        always.sort_by(|a, b| a.id.cmp(&b.id));
-        if always.len() < 50 {
-            c.infra(format!("only {} objects", always.len()));
-            return;
-        }
-        let by_id: HashMap<ObjectId, usize> = always.iter().enumerate().map(|(i, o)| (o.id, i)).collect();
-        let shared = Shared {
-            always,
-            by_id: RwLock::new(by_id),
-            published: RwLock::new(Vec::new()),
-            done: AtomicBool::new(false),
-            total_ops: AtomicU64::new(0),
-            phase: AtomicUsize::new(0),
-        };
-
-        // ---- the store and one handle per reader
-        let first = match gix_odb::at_opts(
-            objects_dir.clone(),
-            Vec::new(),
-            Options {
-                slots: Slots::Given(w.slots),
-                object_hash: gix_hash::Kind::Sha1,
-                use_multi_pack_index: w.use_midx,
-                current_dir: Some(world.scratch.path.clone()),
-            },
-        ) {
-            Ok(h) => h,
-            Err(e) => {
-                c.fail_sig("store-open", format!("gix_odb::at_opts failed: {e}"));
-                return;
-            }
-        };
-        let mut handles: Vec<OdbHandle> = Vec::new();
-        for r in &w.readers {
-            let mut h = first.clone();
-            match r.pack_cache {
-                1 => h.set_pack_cache(|| Box::new(gix_pack::cache::lru::StaticLinkedList::<64>::new(64 * 1024))),
-                2 => h.set_pack_cache(|| Box::new(gix_pack::cache::lru::MemoryCappedHashmap::new(256 * 1024))),
-                _ => {}
-            }
-            if r.object_cache {
-                h.set_object_cache(|| Box::new(gix_pack::cache::object::MemoryCappedHashmap::new(128 * 1024)));
-            }
-            handles.push(h);
-        }
-        let refreshes_before = first.store_ref().metrics().num_refreshes;
+        let steps: Vec<&Step> = w.steps.iter().map(|(s, _)| s).collect();
+        world_labels(c, &w, &steps);
+        let Some(mut b) = build_world(c, &w, &steps, "c12") else { return };
+        let described = render(&w);
 
         // ---- run: readers in threads, the mutator here
         let mut outs: Vec<ReaderOut> = Vec::new();
         let mut mutator_error: Option<String> = None;
         let mut steps_overlapped = 0usize;
+        let handles: Vec<OdbHandle> = b.handles.drain(..).collect();
+        let shared = &b.shared;
+        let git = &b.git;
         std::thread::scope(|scope| {
             let mut joins = Vec::new();
-            for (h, r) in handles.drain(..).zip(w.readers.iter()) {
-                let shared = &shared;
+            for (h, r) in handles.into_iter().zip(w.readers.iter()) {
                 joins.push(scope.spawn(move || {
                     let tid = std::thread::current().id();
-                    match std::panic::catch_unwind(std::panic::AssertUnwindSafe(|| reader_main(h, r, shared, 150, 400_000))) {
+                    match std::panic::catch_unwind(std::panic::AssertUnwindSafe(|| reader_main(h, r, shared, 150, 50_000_000))) {
                         Ok(out) => out,
                         Err(_) => {
                             let mut out = ReaderOut::default();
@@ -1034,40 +1591,7 @@ pub fn main() {
                 }
                 let ops_before = shared.total_ops.load(Ordering::Relaxed);
                 shared.phase.store((si + 1) | if step.destructive() { 1 << 16 } else { 0 }, Ordering::Relaxed);
-                let res: Result<(), String> = (|| {
-                    if let Step::NewCommits { count, as_pack } = step {
-                        let branch = format!("n{si}");
-                        let old_tips = git.run(["for-each-ref", "--format=%(objectname)"])?;
-                        let stream = commits_stream(&branch, next_commit, *count as usize, w.files as usize, Some("refs/heads/main^0"), false);
-                        next_commit += *count as usize;
-                        git.clone().cfg(unpack(*as_pack)).run_in(["fast-import", "--quiet"], Some(&stream))?;
-                        let mut args: Vec<String> = vec!["rev-list".into(), "--objects".into(), "--no-object-names".into(), format!("refs/heads/{branch}")];
-                        for tip in String::from_utf8_lossy(&old_tips).lines() {
-                            args.push(format!("^{tip}"));
-                        }
-                        let new_ids = git.run(&args)?;
-                        let new_ids: Vec<String> = String::from_utf8_lossy(&new_ids).lines().map(|l| l.trim().to_string()).filter(|l| !l.is_empty()).collect();
-                        let table = batch_check(&git, Some(&new_ids))?;
-                        let mut by_id = shared.by_id.write().unwrap();
-                        let mut published = shared.published.write().unwrap();
-                        for (id, hex, kind, size) in table {
-                            if by_id.contains_key(&id) {
-                                continue;
-                            }
-                            by_id.insert(id, shared.always.len() + published.len());
-                            published.push(Obj {
-                                id,
-                                hex,
-                                kind,
-                                size,
-                                was_loose: !*as_pack,
-                            });
-                        }
-                        Ok(())
-                    } else {
-                        run_step(&git, step)
-                    }
-                })();
+                let res = apply_step(git, step, si, &mut next_commit, w.files as usize, shared);
                 shared.phase.store(0, Ordering::Relaxed);
                 let ops_after = shared.total_ops.load(Ordering::Relaxed);
                 if step.destructive() && ops_after > ops_before {
@@ -1095,115 +1619,11 @@ pub fn main() {
             c.infra(format!("mutator failed: {e}"));
             return;
         }
-
-        // ---- verdicts
-        for o in &outs {
-            if let Some((loc, msg)) = &o.panic {
-                if loc.starts_with("src/") || loc.contains("/verif/") {
-                    c.infra(format!("harness panic in reader at {loc}: {msg}"));
-                } else {
-                    c.fail_sig(&format!("panic:{loc}"), format!("reader thread panicked at {loc}: {msg}; world: {}", render(&w)));
-                }
-                return;
-            }
+        if !judge(c, &b, &outs, &described) {
+            return;
         }
-        for o in &outs {
-            if let Some((sig, msg)) = o.violations.first() {
-                c.fail_sig(sig, format!("{msg}; world: {}", render(&w)));
-                return;
-            }
-        }
-        // post-hoc: prefix results and iterated ids against the final set of objects
-        let final_table = infra!(c, batch_check(&git, None), "final batch-check");
-        let universe: BTreeSet<ObjectId> = final_table.iter().map(|e| e.0).collect();
-        let universe_hex: Vec<&String> = final_table.iter().map(|e| &e.1).collect();
-        for o in shared.always.iter().chain(shared.published.read().unwrap().iter()) {
-            if !universe.contains(&o.id) {
-                c.infra(format!("git lost object {} during maintenance; the oracle's premise is void", o.hex));
-                return;
-            }
-        }
-        for o in &outs {
-            for (prefix, id, res, must_find) in &o.prefix_results {
-                let matching = universe_hex.iter().filter(|h| h.starts_with(prefix.as_str())).count();
-                match res {
-                    Some(Ok(found)) => {
-                        ensure_sig!(
-                            c,
-                            "prefix-wrong-id",
-                            found.to_string().starts_with(prefix.as_str()) && universe.contains(found),
-                            "lookup_prefix({prefix}) = {found}, which does not have that prefix or is not an object of the repository"
-                        );
-                        if *must_find && matching == 1 {
-                            ensure_sig!(c, "prefix-wrong-id", found == id, "lookup_prefix({prefix}) = {found} but the only object with that prefix is {id}");
-                        }
-                    }
-                    Some(Err(())) => {
-                        ensure_sig!(c, "prefix-false-ambiguity", matching >= 2, "lookup_prefix({prefix}) reports ambiguity but {matching} object(s) of the repository have that prefix");
-                    }
-                    None => {
-                        ensure_sig!(
-                            c,
-                            "miss:lookup_prefix",
-                            !*must_find,
-                            "lookup_prefix({prefix}) [auto-refresh] = None, but {id} exists since before the lookup started; world: {}",
-                            render(&w)
-                        );
-                    }
-                }
-            }
-            for id in &o.iter_ids {
-                ensure_sig!(c, "iter-phantom", universe.contains(id), "iter() yielded {id}, which was never an object of the repository");
-            }
-        }
-        // quiescent end state: a fresh handle finds everything, with the right content
-        let fresh = first.clone();
-        let mut buf = Vec::new();
-        for o in shared.always.iter().chain(shared.published.read().unwrap().iter()) {
-            match PackFind::try_find(&fresh, &o.id, &mut buf) {
-                Ok(Some((d, _))) => {
-                    let got = object_sha1(kind_name(d.kind), d.data);
-                    ensure_sig!(c, "wrong-content", got == o.hex, "after the run: try_find({}) returns content hashing to {got}", o.hex);
-                }
-                Ok(None) => {
-                    c.fail_sig("miss:quiescent", format!("after the run (no concurrent change): try_find({}) = None; world: {}", o.hex, render(&w)));
-                    return;
-                }
-                Err(e) => {
-                    if classify(e.as_ref()) == ErrClass::InsufficientSlots {
-                        continue;
-                    }
-                    c.fail_sig("error:quiescent", format!("after the run: try_find({}) failed: {}", o.hex, err_chain(e.as_ref())));
-                    return;
-                }
-            }
-        }
-
-        // ---- coverage accounting
-        let refreshes = fresh.store_ref().metrics().num_refreshes.saturating_sub(refreshes_before);
-        let ops: u64 = outs.iter().map(|o| o.ops).sum();
-        let during: u64 = outs.iter().map(|o| o.ops_during_destructive).sum();
-        let moved = outs.iter().any(|o| {
-            o.distinct_pack_ids
-                .iter()
-                .any(|(idx, ids)| ids.len() >= 2 || (*idx < shared.always.len() && shared.always[*idx].was_loose && !ids.is_empty()))
-        });
-        c.label_if(outs.iter().any(|o| !o.transient_errors.is_empty()), "transient-not-found-error-retried");
-        c.label_if(outs.iter().any(|o| o.insufficient_slots > 0), "insufficient-slots-error");
-        c.label_if(outs.iter().any(|o| o.legal_misses > 0), "legal-miss-refresh-never");
-        c.label_if(outs.iter().any(|o| o.locations_verified > 0), "stable-location-verified");
-        c.label_if(moved, "object-served-from-changing-packs");
-        c.label_if(during > 0, "lookups-inside-destructive-step");
-        c.label_if(refreshes >= 2, "refreshes>=2");
-        c.label_if(refreshes >= 20, "refreshes>=20");
-        c.label(match ops {
-            0..=999 => "ops<1k",
-            1000..=9999 => "ops-1k..10k",
-            10_000..=99_999 => "ops-10k..100k",
-            _ => "ops>=100k",
-        });
+        let (refreshes, during, moved) = outcome_labels(c, &b, &outs);
         c.nontrivial(refreshes >= 2 && steps_overlapped >= 1 && during >= 1 && moved);
-        let _ = steps_overlapped;
     });
 
     ck.finish();
